@@ -17,9 +17,10 @@
  */
 #include "drv.h"
 
-typedef struct { char kind; long a, b; blob ins; long limit; int bits; } rcase;
+typedef struct { char kind; long a, b; blob ins; long limit; int bits; blob *base, *expect; } rcase;
 typedef struct {
-    blob base, expect;
+    blob *cbase, *cexpect;   /* current state while parsing */
+    blob base, expect;       /* of the running case */
     int **sc; int *ln; int ns;
     int detail;
     rcase *cases; int n;
@@ -60,6 +61,9 @@ static void run_one(int idx, FILE *out, void *vctx) {
     rctx *c = vctx;
     rcase *k = &c->cases[idx];
     tally t = {0};
+    if(!k->expect) die("readenum: no expect");
+    c->expect = *k->expect;
+    if(k->base) c->base = *k->base;
     if(k->kind == 's') {
         size_t pos = k->a;
         int fd = tmp_file_with("re", c->base.p, c->base.n);
@@ -116,8 +120,8 @@ int cmd_readenum(FILE *job, FILE *out) {
         char **t = split_ws(line, &n);
         if(n == 0) { free(t); free(line); continue; }
         if(!strcmp(t[0], "scheds")) c.ns = parse_scheds(t[1], &c.sc, &c.ln);
-        else if(!strcmp(t[0], "base")) c.base = blob_arg(t[1]);
-        else if(!strcmp(t[0], "expect")) c.expect = blob_arg(t[1]);
+        else if(!strcmp(t[0], "base")) { c.cbase = malloc(sizeof(blob)); *c.cbase = blob_arg(t[1]); }
+        else if(!strcmp(t[0], "expect")) { c.cexpect = malloc(sizeof(blob)); *c.cexpect = blob_arg(t[1]); }
         else if(!strcmp(t[0], "detail")) c.detail = atoi(t[1]);
         else if(!strcmp(t[0], "chunk")) chunk = atoi(t[1]);
         else {
@@ -125,16 +129,16 @@ int cmd_readenum(FILE *job, FILE *out) {
                 long lo = atol(t[1]), hi = atol(t[2]);
                 for(long p = lo; p < hi; p++) {
                     if(c.n >= cap) { cap = cap ? cap * 2 : 1024; c.cases = realloc(c.cases, cap * sizeof *c.cases); }
-                    rcase k = {t[0][0] == 's' ? 's' : 't', p, 0, {0}, kvi(t, n, "limit", -1), !strcmp(kv(t, n, "vals", "all"), "bits")};
+                    rcase k = {t[0][0] == 's' ? 's' : 't', p, 0, {0}, kvi(t, n, "limit", -1), !strcmp(kv(t, n, "vals", "all"), "bits"), c.cbase, c.cexpect};
                     c.cases[c.n++] = k;
                 }
             } else if(!strcmp(t[0], "edit")) {
                 if(c.n >= cap) { cap = cap ? cap * 2 : 1024; c.cases = realloc(c.cases, cap * sizeof *c.cases); }
-                rcase k = {'e', atol(t[1]), atol(t[2]), blob_arg(t[3]), kvi(t, n, "limit", -1), 0};
+                rcase k = {'e', atol(t[1]), atol(t[2]), blob_arg(t[3]), kvi(t, n, "limit", -1), 0, c.cbase, c.cexpect};
                 c.cases[c.n++] = k;
             } else if(!strcmp(t[0], "file")) {
                 if(c.n >= cap) { cap = cap ? cap * 2 : 1024; c.cases = realloc(c.cases, cap * sizeof *c.cases); }
-                rcase k = {'f', 0, 0, blob_arg(t[1]), kvi(t, n, "limit", -1), 0};
+                rcase k = {'f', 0, 0, blob_arg(t[1]), kvi(t, n, "limit", -1), 0, c.cbase, c.cexpect};
                 c.cases[c.n++] = k;
             } else die("readenum: bad line %s", t[0]);
         }
